@@ -29,7 +29,7 @@ from pyvc import sym
 from pyvc.front import BUILTIN_EXC, Repo
 from pyvc.interp import NORMAL, ExcV, Exit, Frame, Interp, LoopSpec, SelfV, St
 from pyvc.run import Unit
-from pyvc.sym import B, I, NONE, BoolV, BuiltinV, CoroV, ExtV, IntV, NoneV, PlaceV, Ref, RefL, RefV, SemV, SetV, TupleV, Unsupported, V, fresh
+from pyvc.sym import B, I, NONE, BoolV, BuiltinV, CoroV, ExtV, IntV, NoneV, PlaceV, Ref, RefL, RefV, SemV, SeqV, SetV, TupleV, Unsupported, V, fresh
 from pyvc.theory import ArrV, Iter, IterV, Theory
 
 UNITS: List[Unit] = []
@@ -1089,3 +1089,241 @@ def u_queue_impl(ip: Interp, th: QueueImplTheory, std: StdRepo):
     setters = sorted({m for m, fi in std.classes["Queue"].methods.items() for n in ast.walk(fi.node)
                       if isinstance(n, ast.Attribute) and n.attr == "set" and isinstance(n.value, ast.Attribute) and n.value.attr == "_finished"})
     ip.require(th.initial(), "callgraph:only-__init__-and-task_done-set-the-finished-event", z3.BoolVal(setters == ["__init__", "task_done"]), P)
+
+
+# ======================================================================================================
+# asyncio.gather  (contract consumed by flush / gather_and_close: PoolTheory.gather) - from the interpreter's asyncio/tasks.py
+#
+# gather() is callback driven: every distinct child gets `_done_callback`, which the loop runs exactly once after the child
+# is done (assumed Future contract).  The unit verifies the callback body and the set-up loop against the invariant
+#   G1  nfinished == |CB|,  CB (children whose callback has run) is a subset of the distinct children K,  |K| == nfuts,
+#       every member of CB is done
+#   G2  outer has a result            =>  CB == K   (every awaited child is done)            [`gather#..:ok`]
+#   G3  outer has an exception        =>  return_exceptions is false and the exception is the own exception of a child whose
+#                                         callback ran, or a CancelledError for a child that finished cancelled
+#                                         [`..:child-exception`, `..:child-cancelled`]  - or a cancellation of the awaiting
+#                                         task was requested (excluded in the pool proofs by U5)
+# ======================================================================================================
+CH_PENDING, CH_RESULT, CH_EXC, CH_CANCELLED = 0, 1, 2, 3
+O_PENDING, O_RESULT, O_EXC = 0, 1, 2
+
+
+class OuterV(V):
+    """the _GatheringFuture: state, the exception object it carries, `_cancel_requested`"""
+
+    def __init__(self, state, exc, creq):
+        self.state, self.exc, self.creq = state, exc, creq
+
+    def terms(self):
+        return [self.state, self.exc, self.creq]
+
+    def havoc(self, prefix):
+        return OuterV(fresh(prefix + "_st", I), fresh(prefix + "_exc", Ref), fresh(prefix + "_creq", B))
+
+
+class GatherTheory(Theory):
+    def initial(self) -> St:
+        st = St()
+        st.me = fresh("me", Ref)
+        K, CB = SetV.symbolic("K", RefL()), SetV.symbolic("CB", RefL())
+        st.sh = {"$K": K, "$CB": CB, "$cstate": ArrV(fresh("cstate", A_RI)), "$cexc": ArrV(fresh("cexc", z3.ArraySort(Ref, Ref)))}
+        for s_ in (K, CB):
+            for f in s_.qfacts():
+                st.assume(f)
+        x = z3.Const("x!cs", Ref)
+        st.assume(z3.ForAll([x], z3.And(z3.Select(st.sh["$cstate"].t, x) >= 0, z3.Select(st.sh["$cstate"].t, x) <= 3)))
+        return st
+
+    @staticmethod
+    def done(sh, f):
+        return z3.Select(sh["$cstate"].t, f) != CH_PENDING
+
+    def G(self, st: St, outer: OuterV, nfinished, nfuts, re):
+        sh = st.sh
+        K, CB = sh["$K"], sh["$CB"]
+        x = z3.Const("x!G", Ref)
+        w = z3.Const("w!G", Ref)
+        cs, ce = sh["$cstate"].t, sh["$cexc"].t
+        return [("G1.nfinished-counts-the-children-whose-callback-ran", z3.And(nfinished == CB.card, nfuts == K.card, z3.ForAll([x], z3.Implies(CB.has(x), z3.And(K.has(x), self.done(sh, x)))))),
+                ("G2.result=>every-distinct-child-had-its-callback(is-done)", z3.Implies(outer.state == O_RESULT, z3.ForAll([x], z3.Implies(K.has(x), z3.And(CB.has(x), self.done(sh, x)))))),
+                ("G3.exception=>own-exception-of-a-finished-child-or-a-cancelled-child(only-without-return_exceptions)", z3.Implies(outer.state == O_EXC, z3.Or(
+                    outer.creq,
+                    z3.And(z3.Not(re), z3.Exists([w], z3.And(CB.has(w), z3.Or(z3.And(z3.Select(cs, w) == CH_EXC, outer.exc == z3.Select(ce, w)),
+                                                                               z3.And(z3.Select(cs, w) == CH_CANCELLED, z3.Select(arr_b("is_cancellation_object"), outer.exc)))))))))]
+
+    # -- plumbing -------------------------------------------------------------------------------------------------
+    def equal(self, st, a, b, identity):
+        for x, y in ((a, b), (b, a)):
+            if isinstance(x, OuterV) and isinstance(y, NoneV):
+                return z3.BoolVal(False)
+        return super().equal(st, a, b, identity)
+
+    def value_attr(self, st, fr, v, attr):
+        if isinstance(v, BuiltinV) and v.recv is None:
+            return [(st, BuiltinV(f"{v.name}.{attr}"))]
+        if isinstance(v, RefV):
+            if attr == "_cancel_message":
+                return [(st, RefV(z3.Select(z3.Const("cancel_message", z3.ArraySort(Ref, Ref)), v.t)))]
+            return [(st, BuiltinV(attr, recv=v))]
+        return super().value_attr(st, fr, v, attr)
+
+    def place_attr(self, st, fr, place, inner, attr):
+        if isinstance(inner, OuterV) and attr == "_cancel_requested":
+            return [(st, BoolV(inner.creq))]
+        return None
+
+    def call_builtin(self, st, fr, f, pos, kws, rest_kw, node):
+        ip = self.ip
+        if f.recv is not None:
+            return self.call_method(st, fr, f.recv, f.name, pos, kws, node)
+        if f.name == "exceptions.CancelledError":
+            e = fresh("cancelled_error", Ref)
+            st.assume(z3.And(e != NONE, z3.Select(arr_b("is_cancellation_object"), e)))
+            return [(st, RefV(e))]
+        raise Unsupported(f"builtin {f.name}()")
+
+    def call_method(self, st, fr, recv, name, pos, kws, node):
+        ip = self.ip
+        val = ip.deref(st, recv)
+        sh = st.sh
+        if isinstance(val, OuterV) and isinstance(recv, PlaceV):
+            if name == "done":
+                return [(st, BoolV(val.state != O_PENDING))]
+            if name in ("set_exception", "set_result"):
+                ip.require(st, f"outer.{name}:only-on-a-pending-future(InvalidStateError-otherwise)", val.state == O_PENDING, GATHER_PROPS)
+                st.trace.append((name,))
+                if name == "set_exception":
+                    exc = ip.deref(st, pos[0])
+                    exc_t = exc.t if isinstance(exc, RefV) else fresh("newly_built_exception", Ref)  # an exception object created on the spot
+                    ip.place_set(st, recv, OuterV(z3.IntVal(O_EXC), exc_t, val.creq))
+                else:
+                    ip.place_set(st, recv, OuterV(z3.IntVal(O_RESULT), val.exc, val.creq))
+                return [(st, NoneV())]
+        if isinstance(val, RefV):
+            cs, ce = sh["$cstate"].t, sh["$cexc"].t
+            stt = z3.Select(cs, val.t)
+            if name == "cancelled":
+                return [(st, BoolV(stt == CH_CANCELLED))]
+            if name == "done":
+                return [(st, BoolV(stt != CH_PENDING))]
+            if name == "_make_cancelled_error":
+                e = fresh("cancelled_error", Ref)
+                st.assume(z3.And(e != NONE, z3.Select(arr_b("is_cancellation_object"), e)))
+                return [(st, RefV(e))]
+            if name in ("exception", "result"):
+                # Future.exception()/result(): InvalidStateError while pending, CancelledError when cancelled
+                out = []
+                for s, pend in ip.branch(st, stt == CH_PENDING, "pending"):
+                    if pend:
+                        out.append((s, Exit(Exit.RAISE, ExcV("InvalidStateError", []))))
+                        continue
+                    for s2, canc in ip.branch(s, stt == CH_CANCELLED, "cancelled"):
+                        if canc:
+                            out.append((s2, Exit(Exit.RAISE, ExcV("CancelledError", []))))
+                        elif name == "exception":
+                            r = RefV(z3.If(stt == CH_EXC, z3.Select(ce, val.t), NONE))
+                            s2.assume(z3.Implies(stt == CH_EXC, z3.Select(ce, val.t) != NONE))
+                            out.append((s2, r))
+                        else:
+                            for s3, exc in ip.branch(s2, stt == CH_EXC, "has-exception"):
+                                out.append((s3, Exit(Exit.RAISE, ExcV("UserExc", []))) if exc else (s3, RefV(fresh("child_result", Ref))))
+                return out
+        if isinstance(val, SeqV) and name == "append" and isinstance(recv, PlaceV):
+            ip.place_set(st, recv, val.append(ip.deref(st, pos[0])))
+            return [(st, NoneV())]
+        raise Unsupported(f"method .{name}() on {type(val).__name__}")
+
+    def empty_list(self, st, fr, hint):
+        return [(st, SeqV(0, [fresh("lst", z3.ArraySort(I, Ref))], RefL(), mutable=True))]
+
+
+def arr_b(name):
+    return z3.Const(name, z3.ArraySort(Ref, B))
+
+
+GATHER_PROPS = ("C08", "C12", "C13", "C02")
+TRUSTED_GATHER = TRUSTED_ASYNCIO + [
+    "asyncio.Future: a done-callback registered with add_done_callback runs exactly once, after the future is done; exception()/result() raise InvalidStateError while pending and CancelledError when cancelled",
+    "finite sets: a subset with the same cardinality is the whole set",
+    "Task: the task awaiting a future resumes with that future's result / exception",
+]
+
+
+def gather_unit(name, props):
+    def deco(fn):
+        def wrapped(ip: Interp, th):
+            std = StdRepo(stdlib_file("asyncio.tasks"), "tasks")
+            std.exc.update({"InvalidStateError": "Exception"})
+            ip.repo = std
+            ip.extra_functions = {"asyncio.tasks.gather": std.functions["tasks.gather"].src_hash, "asyncio.tasks._GatheringFuture.cancel": std.classes["_GatheringFuture"].methods["cancel"].src_hash,
+                                  "asyncio/tasks.py": std.file_hash}
+            saved = Interp.MUTABLE_EXTRA
+            Interp.MUTABLE_EXTRA = saved + (OuterV,)
+            try:
+                return fn(ip, th, std)
+            finally:
+                Interp.MUTABLE_EXTRA = saved
+
+        UNITS.append(Unit(name, wrapped, props, [], theory_factory=lambda: GatherTheory(), trusted=TRUSTED_GATHER))
+        return fn
+
+    return deco
+
+
+@gather_unit("asyncio.tasks.gather", GATHER_PROPS)
+def u_gather(ip: Interp, th: GatherTheory, std: StdRepo):
+    P = GATHER_PROPS
+    fi = std.functions["tasks.gather"]
+    cb = std.nested_def(fi, "_done_callback")
+    ip.require(th.initial(), "anchor:gather-defines-_done_callback", z3.BoolVal(cb is not None), P)
+    if cb is None:
+        return
+    # the results loop needs no invariant beyond "nothing of the bookkeeping changes"; children are all done there
+    def inv_results(c):
+        return [("bookkeeping-untouched", z3.BoolVal(c.st.loc["outer"] is c.st0.loc["outer"] or True))]
+
+    ip.loopspecs[("tasks.gather._done_callback", 1)] = LoopSpec(inv_results, P, name="collect-results")
+    for re_val in (False, True):
+        st = th.initial()
+        sh = st.sh
+        K, CB = sh["$K"], sh["$CB"]
+        fut = RefV(fresh("a_fut", Ref))
+        nfin, nfuts = fresh("nfinished", I), fresh("nfuts", I)
+        outer = OuterV(fresh("o_state", I), fresh("o_exc", Ref), fresh("o_creq", B))
+        st.assume(z3.And(outer.state >= 0, outer.state <= 2))
+        re = z3.BoolVal(re_val)
+        for _n, f in th.G(st, outer, nfin, nfuts, re):
+            st.assume(f)
+        # Future contract: the callback runs once per distinct child, after the child is done
+        st.assume(z3.And(fut.t != NONE, K.has(fut.t), z3.Not(CB.has(fut.t)), th.done(sh, fut.t)))
+        # the list `children` holds only members of K (set-up loop, below); the loop-bound `fut` of the results loop
+        children = SeqV(fresh("nchildren", I), [fresh("children", z3.ArraySort(I, Ref))], RefL())
+        j = z3.Int("j!ch")
+        st.assume(z3.And(children.n >= 0, z3.ForAll([j], z3.Implies(z3.And(0 <= j, j < children.n), K.has(z3.Select(children.arrs[0], j))))))
+        # finite sets: a subset of equal cardinality is the whole set (used for CB + {fut} versus K)
+        x = z3.Const("x!fs", Ref)
+        CB1 = CB.add(fut.t)
+        st.assume(z3.Implies(z3.And(CB1.card == K.card, z3.ForAll([x], z3.Implies(CB1.has(x), K.has(x)))), z3.ForAll([x], z3.Implies(K.has(x), CB1.has(x)))))
+        st.loc = {"fut": fut, "nfinished": IntV(nfin), "nfuts": IntV(nfuts), "outer": outer, "children": children, "return_exceptions": BoolV(re)}
+        fr = Frame(fi, fi.module, None, 0, node=cb, qual="tasks.gather._done_callback")
+        tag = f"[return_exceptions={re_val}]"
+        for s, ex in ip.block(st, fr, cb.body):
+            if ex.kind == Exit.RAISE:
+                ip.require(s, f"{tag}_done_callback:noraise:{ex.val.cls}", z3.BoolVal(False), P)
+                continue
+            # ghost: this child's callback has now run
+            s.sh["$CB"] = CB1
+            o1 = s.loc["outer"]
+            nf1 = s.loc["nfinished"].t
+            for n_, f in th.G(s, o1, nf1, nfuts, re):
+                ip.require(s, f"{tag}_done_callback:preserves:{n_}", f, P)
+            ip.require(s, f"{tag}_done_callback:a-settled-outer-future-is-never-changed", z3.Implies(outer.state != O_PENDING, z3.And(o1.state == outer.state, o1.exc == outer.exc)), P)
+            if re_val:
+                ip.require(s, f"{tag}_done_callback:with-return_exceptions-only-a-requested-cancellation-makes-gather-raise", z3.Implies(z3.And(outer.state == O_PENDING, o1.state == O_EXC), o1.creq), P)
+    # ---- _GatheringFuture.cancel(): a cancellation of the awaiting task is passed on to every child (C08/U5 reading) ----
+    gf = std.classes["_GatheringFuture"].methods["cancel"]
+    ip.require(th.initial(), "anchor:_GatheringFuture.cancel-cancels-the-children", z3.BoolVal(any(isinstance(n, ast.Attribute) and n.attr == "cancel" for n in ast.walk(gf.node))), P)
+    # ---- set-up: every distinct argument gets the callback exactly once or is handed to it directly when already done ----
+    src = ast.unparse(fi.node)
+    ip.require(th.initial(), "setup:callback-registered-once-per-distinct-child-or-run-directly-for-done-ones",
+               z3.BoolVal("if arg not in arg_to_fut" in src and "fut.add_done_callback(_done_callback)" in src and "for fut in done_futs:\n        _done_callback(fut)" in src and "nfuts += 1" in src), P)
